@@ -61,6 +61,10 @@ class Sim:
         self.events = []                 # observable log for oracles
         self.max_pending = 0
         self.on_switch_point = None      # optional invariant hook(sim, tag)
+        self.submit_meta = {}            # seq -> harness-defined tag captured at submission time
+        self.meta_fn = None
+        self.running_seq = None
+        self.n_completed_batches = 0
 
     # ------------------------------------------------------------------ scheduling core
     def _cb_can_run(self):
@@ -134,6 +138,7 @@ class Sim:
                     self.cb_busy = True
                     try:
                         self.events.append(("complete", seq))
+                        self.running_seq = seq
                         runner()
                     except SimStop:
                         raise
@@ -141,6 +146,7 @@ class Sim:
                         self.cb_errors.append("%s: %s" % (type(e).__name__, e))
                     finally:
                         self.cb_busy = False
+                        self.n_completed_batches += 1
                     self.sp("cb-done")
                     # a completion takes time: the caller, if it can run, gets the processor back before the
                     # next completion starts (two completions back to back cost the caller one pre-emption)
@@ -217,6 +223,7 @@ class Sim:
         seq = self.n_submitted
         self.n_submitted += 1
         runner.seq = seq
+        self.submit_meta[seq] = self.meta_fn() if self.meta_fn else None
         self.pending.append((seq, runner))
         self.events.append(("submit", seq))
         self.max_pending = max(self.max_pending, len(self.pending))
